@@ -251,11 +251,14 @@ class SubGen:
             tn = f"task{r.choice([1, 2, 3])}"
             return [r.choice([["h-task", tn], ["h-method", f"m{self.k}", tn, r.choice(["_", pg.cond([], (), 1)])],
                               ["h-subtask", tn, f"st{self.k}"]])]
-        out = []
+        out, half_open = [], False
         for j, it in enumerate(post):
             out.append(it)
-            half_open = it[0] in ("left", "right") and j + 1 < len(post) and post[j + 1][0] in ("left", "right") \
-                and post[j + 1][0] != it[0] and post[j + 1][1] == it[1] and (j == 0 or post[j - 1][1:] != it[1:] or post[j - 1][0] == it[0])
+            if half_open:
+                half_open = False        # `it` is the second half of a single-sided pair
+            else:
+                half_open = it[0] in ("left", "right") and j + 1 < len(post) and post[j + 1][0] in ("left", "right") \
+                    and post[j + 1][0] != it[0] and post[j + 1][1] == it[1]
             if not half_open and r.random() < 0.25:
                 for o in special():
                     if r.random() < 0.15:
